@@ -572,7 +572,7 @@ func (e *Env) call(x *Expr) TV {
 		mv := e.mapValue(m)
 		e.x.usesSz = true
 		t := e.x.szTerm(mv)
-		e.fact(mk(SBool, "(>= %s 0)", t))
+		e.fact(szBound(t))
 		if e.szMaps != nil {
 			(*e.szMaps)[mv.S] = mv
 		}
